@@ -123,7 +123,7 @@ fn check(e: &Expression, case: &str, rep: &mut Report, by_construction: bool) {
             if !with_action {
                 rep.add("implicit_prints_observed", run.outcomes.iter().filter(|o| !o.outs.is_empty()).count() as u64);
             }
-            if inter && rep.samples.len() < 6 && rep.evaluations % 53 == 0 {
+            if rep.samples.is_empty() || (inter && rep.samples.len() < 6 && rep.evaluations % 53 == 0) {
                 rep.sample(J::obj(vec![
                     ("expression", J::s(render_default(e).unwrap_or_default())),
                     ("has_action", J::Bool(with_action)),
@@ -142,7 +142,7 @@ fn check(e: &Expression, case: &str, rep: &mut Report, by_construction: bool) {
 }
 
 pub fn run(ctx: &Ctx, rep: &mut Report) {
-    let max_nodes = if ctx.tier_thorough { 8 } else { 5 };
+    let max_nodes = if ctx.tier_thorough { 9 } else { 5 };
     let counts = Counts::new(max_nodes);
     let mut total = 0;
     for n in 1..=max_nodes {
@@ -160,7 +160,7 @@ pub fn run(ctx: &Ctx, rep: &mut Report) {
     });
     rep.exhaustive = Some(true);
     rep.extra.push(("exhaustive_bound".into(), J::s(format!("all {} trees of 1..{} nodes over leaves {{true,false,name a,print,quit,fprint f}} and operators {{!,and,or,list}}", total, max_nodes))));
-    let n_rand = ctx.pick(3000, 200_000);
+    let n_rand = ctx.pick(3000, 1_000_000);
     par_cases(ctx, "random", n_rand, rep, |i, rep| {
         let mut r = Rng::for_case(ctx.seed, "random", i);
         let leaves = 4 + r.usize(12);
